@@ -282,6 +282,38 @@ class FoldUnit:
         from units.c05_ops import OpsUnit
         return OpsUnit.witness(self, repo, o, res)
 
+    def cli_replay(self, repo, o, vals):
+        """operands decoded from kani's bytes -> `r = <literal> op <literal>` (a foldable expression) on the real CLI"""
+        import math
+        from vlib import numreplay as N, cli
+        parts = o.oid.split(".")
+        parts = parts[3:] if parts[0] == "C16" else parts[1:]          # C16.nopanic.fold.<op>.<lk>.<rk> / C06.<op>.<lk>.<rk>
+        op, lk, rk = parts[0], parts[1], parts[2]
+        if op not in N.SYMS or len(vals) < 2:
+            return {"replayed_on_real_cli": False, "why": "no program template for this obligation"}
+        a, b = N.decode(lk, vals[0]), N.decode(rk, vals[1])
+        def flit(k, v):          # literal syntax only (so that the folder sees two literals)
+            if k == "float":
+                t = N.literal(k, abs(v)) if not (math.isnan(v) or math.isinf(v)) else None
+                return None if t is None else (t if math.copysign(1.0, v) > 0 else "-" + t)
+            if k == "byte": return "0b" + bin(v)[2:]
+            if k == "int" and v == -2**31: return None
+            if k == "bigint" and v == -2**127: return None
+            t = ("B" if k == "bigint" else "") + str(abs(v))
+            return t if v >= 0 else "-" + t
+        la, lb = flit(lk, a), flit(rk, b)
+        if la is None or lb is None:
+            return {"replayed_on_real_cli": False, "why": "an operand (NaN / infinity / the most negative value) is not a literal of its kind", "operands": [repr(a), repr(b)]}
+        expect = N.spec_binop(op, lk, a, rk, b)
+        if expect[0] == "skip":
+            return {"replayed_on_real_cli": False, "why": "expected value not computable in the replay aid", "operands": [repr(a), repr(b)]}
+        prog = f"r = {la} {N.SYMS[op]} {lb}\nprint typeof r\nprint r\n"
+        run = cli.run_program(repo, prog)
+        rep, actual = N.judge(expect, run)
+        return {"replayed_on_real_cli": True, "reproduced_on_real_cli": rep, "operands": {"a": f"{lk} {a!r}", "b": f"{rk} {b!r}"},
+                "note": "for * / % the harness abstracts the machine operation; the operands are a candidate, the CLI run decides",
+                "expected_by_the_property": "a failure (no value), as at run time" if expect[0] == "fail" else f"{expect[1]} {expect[2]!r}", "actual": actual, **run}
+
 
 UNITS = [FoldUnit()]
 
